@@ -190,6 +190,9 @@ func (x c07St) digest() string { return x.m.VerifDigest() }
 type c07S2S struct{ m *strmap.Str2Str }
 
 func s2sVal(id int) string {
+	if id%100 == 3 { // longer than 65535 bytes (the store keeps a 4-byte length)
+		return strings.Repeat("0123456789abcdef", 4400) + fmt.Sprint(id)
+	}
 	switch id % 4 {
 	case 0:
 		return ""
